@@ -93,8 +93,18 @@ def split_top(s, sep=','):
     return out
 
 
+_SG_CACHE = {}
+
+
 def strip_generics(p):
     """remove ::<...> groups from a path"""
+    r = _SG_CACHE.get(p)
+    if r is None:
+        r = _SG_CACHE[p] = _strip_generics(p)
+    return r
+
+
+def _strip_generics(p):
     out = []
     i = 0
     while i < len(p):
